@@ -81,7 +81,7 @@ def gen_case(rng):
         hops.append({'url': gen_hop_url(rng), 'code': rng.choice(REDIRECT_CODES), 'set_cookie': rng.random() < 0.4,
                      'location_style': rng.choice(['absolute', 'absolute', 'relative-if-same-host'])})
     case = {'hops': hops, 'credentials': None, 'referer': rng.choice([None, 'http://a.test/from page', 'https://s.test/secret']),
-            'method': 'GET', 'challenge': False, 'preset_cookie': rng.random() < 0.5}
+            'method': 'GET', 'challenge': False, 'preset_cookie': rng.random() < 0.5, 'proxy': rng.random() < 0.25}
     if rng.random() < 0.35:
         case['credentials'] = rng.choice([['user', 'pw'], ['us er', 'p:w'], ['ü', 'pä'], ['a\r\nX: 1', 'b']])
         # 'url': credentials inside the first URL (sent at once); 'login': configured user/password (as --http-user),
@@ -129,6 +129,12 @@ def run_case(case, part):
             peers = {}
 
             def peer_for(info):
+                if case.get('proxy'):
+                    key = ('127.0.2.100', 3128)
+                    if key not in peers:
+                        peers[key] = LoggingPeer(shared, key[0], key[1])
+                        net.add_peer(key[0], key[1], peers[key])
+                    return peers[key]
                 ip = HOST_IPS.get(info.hostname, HOST_IPS.get('[' + info.hostname + ']'))
                 key = (ip, info.port)
                 if key not in peers:
@@ -167,7 +173,11 @@ def run_case(case, part):
                     table[URLInfo.parse('http://' + name + '/').hostname] = ip
                 except ValueError:
                     pass
-            pool = ConnectionPool(resolver=netsim.StaticResolver(table))
+            if case.get('proxy'):
+                from wpull.proxy.client import HTTPProxyConnectionPool
+                pool = HTTPProxyConnectionPool(('127.0.2.100', 3128), resolver=netsim.StaticResolver(table))
+            else:
+                pool = ConnectionPool(resolver=netsim.StaticResolver(table))
             jar = CookieJar()
             jar.set_policy(DeFactoCookiePolicy(cookie_jar=jar))
 
@@ -216,6 +226,8 @@ def run_case(case, part):
     codes = [h['code'] for h in hops[:-1]]
     repeat_chain = any(c in (307, 308) for c in codes)
     cls = 'replay-redirect' if repeat_chain else ('redirect' if codes else 'direct')
+    if case.get('proxy'):
+        cls = 'proxied-' + cls
     part.nontrivial_case('{}/{}/{}/{}'.format(cls, len(hops), bool(case['credentials']), sorted(set(codes))))
     # which cookies / credentials each host may legitimately receive
     cookie_origin = {}
@@ -243,7 +255,18 @@ def run_case(case, part):
                            {'problem': problems[0], 'raw': raw[:300], 'url': info.url}, replay)
             continue
         want_target = info.path + ('?' + info.query if info.query else '')
-        if target != want_target:
+        if case.get('proxy'):
+            # absolute-form: the hop's normalized URL
+            want_target = info.url
+            part.count('proxied_requests_captured')
+        if case.get('proxy'):
+            # a relative Location keeps the authority of its base, including user info (RFC 3986 5.2): compare the
+            # absolute form without user info
+            strip = lambda u: re.sub(r'^(https?://)[^/@]*@', r'\1', u)  # noqa
+            target_cmp, want_cmp = strip(target), strip(want_target)
+        else:
+            target_cmp, want_cmp = target, want_target
+        if target_cmp != want_cmp:
             part.violation('request-target-differs/' + cls, {'target': target, 'expected': want_target, 'url': info.url}, replay)
         hosts = [v for n, v in fields if n == 'host']
         if len(hosts) != 1:
@@ -311,7 +334,7 @@ def main():
                   'query material (encoded CR LF, spaces, NUL, "HTTP/1.1", quotes, non-ASCII), Set-Cookie on some hops, credentials '
                   'in the first URL with and without a 401 challenge, referrers; every captured request parsed strictly. '
                   'distinct_nontrivial = distinct (chain class, hops, credentials, redirect codes)')
-    check.assumptions = ['proxied (absolute-form) requests are not exercised by this check']
+    check.assumptions = ['tunnelled (CONNECT) connections are not exercised; plain proxied requests are']
     target = 'checks.c16_requests:worker'
     if check.args.replay:
         with open(check.args.replay) as f:
